@@ -610,18 +610,24 @@ theorem processFrame_connect_accepts (e : EP) (fid rwnd port : Nat) (host : Byte
   · right; rfl
 
 /-- `Acknowledge` answering a pending open request: exactly one new stream object whose send credit
-    is the window the peer advertised; the request resolves with that stream. -/
+    is the window the peer advertised; the request is answered with that stream (its future returns it
+    when it runs next, `runDone`). -/
 theorem processFrame_ack_establishes (e : EP) (fid n req : Nat) (ig : Bool)
     (hs : lookup e.flows fid = some (.requested req)) (hw : (e.opens.find? (·.req = req)).isSome) :
     let r := processFrame e (.acknowledge fid n) ig
     r.1.objs = e.objs ++ [newObj e.opts fid n [] 0] ∧
     lookup r.1.flows fid = some (.established e.objs.length) ∧
-    r.1.handles = e.handles ++ [e.objs.length] ∧
-    r.2.1 = [.openDone req (.ok e.handles.length)] ∧ r.2.2 = none ∧ r.1.outq = e.outq := by
+    r.1.doneq = e.doneq ++ [(req, e.objs.length)] ∧
+    r.2.2 = none ∧ r.1.outq = e.outq := by
   simp only [processFrame, hs]
   cases hf : e.opens.find? (·.req = req) with
   | none => simp [hf] at hw
   | some r => simp [lookup_insert_self]
+
+/-- The answered request's future returns exactly that stream under the next free handle. -/
+theorem runDone_single (e : EP) (req i : Nat) :
+    runDone e [(req, i)] = ({ e with handles := e.handles ++ [i] }, [.openDone req (.ok e.handles.length)]) := by
+  simp [runDone]
 
 /-- A `Reset` for a pending open request is a rejection of the proposed id: the id is released and
     the request is queued for its next round (run by `runRetries` once the task is idle). -/
